@@ -4,6 +4,7 @@ package tcpasm
 
 import (
 	"os"
+	"sync"
 	"testing"
 	"time"
 
@@ -82,7 +83,49 @@ func init() {
 	}
 }
 
+// ---- C12: several assemblers on one pool under the cooperative scheduler ----
+
+type stream12 struct {
+	h *tcpsim.C12
+	s *tcpsim.C12Stream
+}
+
+func (st *stream12) Reassembled(rs []tcpassembly.Reassembly) {
+	for _, r := range rs {
+		st.h.Deliver(st.s, 0, r.Skip, r.Bytes, r.Start, r.End)
+	}
+}
+func (st *stream12) ReassemblyComplete() { st.h.Complete(st.s) }
+
+type factory12 struct{ h *tcpsim.C12 }
+
+func (f *factory12) New(n, t gopacket.Flow) tcpassembly.Stream {
+	return &stream12{f.h, f.h.NewStream(n, t)}
+}
+
+type asm12 struct{ a *tcpassembly.Assembler }
+
+func (a asm12) Assemble(n gopacket.Flow, t *layers.TCP, ts time.Time) {
+	a.a.AssembleWithTimestamp(n, t, ts)
+}
+func (a asm12) FlushT(t time.Time) (int, int) {
+	return a.a.FlushWithOptions(tcpassembly.FlushOptions{T: t})
+}
+func (a asm12) FlushAll() int { return a.a.FlushAll() }
+
+func c12pkg() *tcpsim.C12Pkg {
+	var pool *tcpassembly.StreamPool
+	return &tcpsim.C12Pkg{
+		SetHook:      func(f func(int, *sync.Mutex, *sync.RWMutex, bool)) { tcpassembly.VerifYield = f },
+		SetOrder:     func(f func([]string) []int) { tcpassembly.VerifOrder = f },
+		NewPool:      func(h *tcpsim.C12) { pool = tcpassembly.NewStreamPool(&factory12{h}) },
+		NewAssembler: func() tcpsim.C12Asm { return asm12{tcpassembly.NewAssembler(pool)} },
+		PoolConns:    func() int { n, _, _ := pool.VerifStats(); return n },
+	}
+}
+
 var sims = map[string]sim.SimFunc{
+	"c12t": func(c *sim.Ctx) { tcpsim.RunC12(c, c12pkg()) },
 	"c10": func(c *sim.Ctx) {
 		tcpsim.Run(c, tcpsim.RunCfg{Strong: true, Gen: tcpsim.GenCfg{MaxConns: 3, AllowNoEnd: true, AllowRST: true}}, mk)
 	},
